@@ -576,6 +576,9 @@ class Randomizer(RandIF):
                     getattr(fm, "presolve_len", None) is not None:
                 if len(fm.field_l) > fm.presolve_len:
                     del fm.field_l[fm.presolve_len:]
+                if getattr(fm, "presolve_tail", None) is not None:
+                    fm.field_l.extend(fm.presolve_tail)
+                    fm.presolve_tail = None
                 fm._set_size(len(fm.field_l))
             for f in fm.field_l:
                 Randomizer._trim_randsz_lists(f, in_set)
